@@ -4,6 +4,7 @@ package main
 
 import (
 	"fmt"
+	"sort"
 	"strings"
 
 	"golang.org/x/tools/go/ssa"
@@ -132,4 +133,107 @@ func init() {
 		}
 		return out, nil
 	}
+}
+
+// goroutine_private_captures (packages planner and core): a goroutine started inside a loop must not capture, by
+// reference, a variable that lives across iterations and that the loop assigns - the goroutines of different iterations
+// would then share it (under the module's pre-1.22 language version range variables are exactly such cells). This is the
+// ownership condition behind "each IN-subquery's goroutine runs its own plan and stores its own result" (C08): the
+// captured cells of a goroutine are either allocated in the iteration that starts it, or never written in the loop.
+func init() {
+	structuralChecks["goroutine_private_captures"] = func(s *Session) ([]*Obligation, error) {
+		var out []*Obligation
+		keys := []string{}
+		for k := range s.fns {
+			keys = append(keys, k)
+		}
+		sort.Strings(keys)
+		nGo := 0
+		for _, k := range keys {
+			fn := s.fns[k]
+			if fn == nil || len(fn.Blocks) == 0 || !(strings.HasPrefix(k, "planner.") || strings.HasPrefix(k, "(*planner.")) {
+				continue
+			}
+			loops := naturalLoops(fn)
+			for _, b := range fn.Blocks {
+				for _, in := range b.Instrs {
+					g, ok := in.(*ssa.Go)
+					if !ok {
+						continue
+					}
+					nGo++
+					mc, ok := g.Call.Value.(*ssa.MakeClosure)
+					if !ok {
+						continue
+					}
+					okAll := true
+					detail := ""
+					for _, bind := range mc.Bindings {
+						a, ok := bind.(*ssa.Alloc)
+						if !ok {
+							continue
+						}
+						for _, body := range loops {
+							if !body[b] || body[a.Block()] {
+								continue
+							}
+							// allocated outside a loop that contains the go statement: any store inside that loop is shared
+							for bb := range body {
+								for _, ii := range bb.Instrs {
+									if st, ok := ii.(*ssa.Store); ok && st.Addr == a {
+										okAll = false
+										detail = fmt.Sprintf("variable %s is captured by reference by a goroutine started in a loop of %s and assigned in that loop", a.Comment, k)
+									}
+								}
+							}
+						}
+					}
+					out = append(out, structObl(fmt.Sprintf("goroutine_private_captures.%s@%d", k, len(out)), "the goroutine's captured variables are private to the iteration that starts it", okAll, detail))
+				}
+			}
+		}
+		if nGo == 0 {
+			return nil, fmt.Errorf("goroutine_private_captures: no go statement found in package planner: enumeration broken")
+		}
+		return out, nil
+	}
+}
+
+// naturalLoops returns the bodies of the natural loops of fn (one per back edge target, merged).
+func naturalLoops(fn *ssa.Function) []map[*ssa.BasicBlock]bool {
+	bodies := map[*ssa.BasicBlock]map[*ssa.BasicBlock]bool{}
+	for _, b := range fn.Blocks {
+		for _, p := range b.Preds {
+			if !isBackEdge(p, b) {
+				continue
+			}
+			body := bodies[b]
+			if body == nil {
+				body = map[*ssa.BasicBlock]bool{b: true}
+				bodies[b] = body
+			}
+			var stack []*ssa.BasicBlock
+			if !body[p] {
+				body[p] = true
+				stack = append(stack, p)
+			}
+			for len(stack) > 0 {
+				x := stack[len(stack)-1]
+				stack = stack[:len(stack)-1]
+				for _, q := range x.Preds {
+					if !body[q] {
+						body[q] = true
+						stack = append(stack, q)
+					}
+				}
+			}
+		}
+	}
+	var out []map[*ssa.BasicBlock]bool
+	for _, b := range fn.Blocks {
+		if body, ok := bodies[b]; ok {
+			out = append(out, body)
+		}
+	}
+	return out
 }
